@@ -208,7 +208,7 @@ func item(c cfg, oracle string) *explore.Item {
 			msg int
 		}
 		var unsubs []unsubAt
-		sanitised := map[string]bool{"Internal server error": true, "visible to the client": true, "wrapped visible message": true,
+		sanitised := map[string]bool{"Internal server error": true, "visible to the client": true, "wrapped visible message": true, "could not load devices": true,
 			"duplicate subscription": true, "too many subscriptions": true, "unknown message type": true}
 		errCount := map[string]int{}
 		failures := map[string]int{}
@@ -491,6 +491,10 @@ func c17configs(tier string) []cfg {
 		{Client: []string{"S:a:boom"}, Pre: []string{"boom-error"}},
 		{Client: []string{"S:a:boom", "S:b:flag"}, Pre: []string{"boom-panic"}, Env: []string{"flag++"}},
 		{Client: []string{"S:a:boom"}, Env: []string{"boom-error", "boom-off"}},
+		// a re-run (not the first run) fails once and is retried; then the subscription ends
+		{Client: []string{"S:a:boom"}, Env: []string{"boom-error-once"}},
+		{Client: []string{"S:a:boom", "S:b:flag"}, Chain: []string{"boom-error-once", "flag++"}},
+		{Client: []string{"S:a:boom", "U:a"}, Env: []string{"boom-error-once"}},
 		{Client: []string{"S:a:flag", "M:m:3"}},
 		{Client: []string{"S:a:flag", "MF:m"}},
 		{Client: []string{"M:m:3", "M:n:4"}},
@@ -524,7 +528,7 @@ func c17configs(tier string) []cfg {
 
 func c16configs(tier string) []cfg {
 	var out []cfg
-	for _, mode := range []string{"error", "safe", "wrapped", "panic"} {
+	for _, mode := range []string{"error", "safe", "wrapped", "panic", "wrapcancel", "safecancel"} {
 		pre := []string{"boom-" + mode}
 		out = append(out, cfg{Client: []string{"S:a:boom"}, Pre: pre})
 		out = append(out, cfg{Client: []string{"S:a:boom", "S:b:flag"}, Pre: pre, Env: []string{"flag++"}})
@@ -562,7 +566,7 @@ func register(prop, name, oracle string, bounds [2]int, cfgs func(string) []cfg,
 }
 
 func init() {
-	for _, c := range []string{"boom-safe", "boom-wrapped", "boom-error-once"} {
+	for _, c := range []string{"boom-safe", "boom-wrapped", "boom-error-once", "boom-wrapcancel", "boom-safecancel"} {
 		mode := strings.TrimPrefix(c, "boom-")
 		changes = append(changes, struct {
 			name string
